@@ -403,17 +403,24 @@ class Unit:
         if s not in self.trusted:
             self.trusted.append(s)
 
-    def render(self):
-        """Return (text, linemap) where linemap[i] (1-based line) = dict(kind=..., ...)"""
+    def render(self, canary=False):
+        """Return (text, linemap) where linemap[i] (1-based line) = dict(kind=..., ...).
+        canary=True: every real function is followed by a copy `<name>__canary` whose contract additionally
+        ensures false; callers keep calling the original, so each copy must fail on its own."""
         lines = []
         lmap = []
+        chunks = []
+        for ch in self.chunks:
+            chunks.append(ch)
+            if canary and ch[0] == "fn":
+                chunks.append(("fn_canary", ch[1]))
 
         def emit(text, info):
             for ln in text.split("\n"):
                 lines.append(ln)
                 lmap.append(dict(info))
 
-        for ch in self.chunks:
+        for ch in chunks:
             if ch[0] == "raw":
                 t = ch[1]
                 if t.endswith("\n"):
@@ -434,9 +441,17 @@ class Unit:
             else:
                 w = ch[1]
                 fq = w.qual()
+                is_canary = ch[0] == "fn_canary"
                 for a in w.attrs:
                     emit(a, {"kind": "ghost", "fn": fq})
                 hdr = w.header_new if w.header_new is not None else w.ex.header.rstrip()
+                saved_ens = w.ensures
+                if is_canary:
+                    fq = fq + "#canary"
+                    hdr, n = re.subn(r"\bfn\s+%s\b" % re.escape(w.emit_name), "fn %s__canary" % w.emit_name, hdr, count=1)
+                    if n != 1:
+                        raise LostAnchor("canary copy: cannot rename %s" % fq)
+                    w.ensures = list(w.ensures) + [("CANARY", "false")]
                 emit(hdr, {"kind": "header", "fn": fq, "src": w.ex.rel, "sline": w.ex.line})
                 if w.requires:
                     emit("    requires", {"kind": "ghost", "fn": fq})
@@ -470,6 +485,7 @@ class Unit:
                                         "sline": body_line0 + w.ex.body.count("\n", 0, o)}
                 lines.append(cur)
                 lmap.append(cur_info or {"kind": "ghost", "fn": fq})
+                w.ensures = saved_ens
         # label markers `// [C01.x,C03.y]` on any generated line
         for i, ln in enumerate(lines):
             if "label" not in lmap[i]:
